@@ -20,8 +20,8 @@ from props import codecgen as CG
 MAKE_TARGETS = ["Props/C06.vo"]
 PROFILES = ("release", "dev")
 RULE = ("certificates: every Table-2 size K' <= 500 (quick) / <= 3000 (thorough) for the plan, every 4th of them also for "
-        "the direct solves with threshold 0 (sparse) and 2^31 (dense); extracted checker for K' in {5008, 10002, 20020(if "
-        "present), 56403} in the thorough tier; intermediate symbols: K over table rows up to 60 (quick) / 300, T in "
+        "the direct solves with threshold 0 (sparse) and 2^31 (dense); extracted checker for K' in {5008, 10002} in the thorough "
+        "tier; intermediate symbols: K over table rows up to 60 (quick) / 300, T in "
         "{1,2,3,8}, three construction variants x two back-ends; non-trivial = one certified (K', variant) pair or one "
         "intermediate-symbol comparison")
 TRUSTED = [
@@ -99,12 +99,32 @@ def cases(rng, tier):
             c = C.Case("intermediate", [t, variant, thr] + data)
             c.tag = f"K{k}"
             cs.append(c)
+    # structure of the encoding matrix for the LARGEST block sizes (no solving, cheap): all S LDPC rows and a sample
+    # of G_ENC rows, on the sparse back-end; these sizes are beyond every in-kernel certificate
+    kps = kprimes()
+    big = [kps[-1], 28845] if tier == "quick" else [kps[-1], kps[-2], 28845, 29138, 30654, 40398, 10002]
+    for kp in [k for k in big if k in kps]:
+        rows = list(range(0, 1200))[: 2000]
+        srows = sorted(set(r for r in rows))
+        # S is at most 907: rows beyond S+H are G_ENC rows; add a few at the far end
+        rows = srows + [rng.range(1200, kp) for _ in range(30)]
+        c = C.Case("cm_rows", [kp] + rows)
+        c.tag = "structure"
+        cs.append(c)
     return cs
 
 
 def evaluate(cs, rep, tier):
+    structure = [c for c in cs if c.tag == "structure"]
+    cs = [c for c in cs if c.tag != "structure"]
     impl, model, dis = G.diff_impl_model(cs, PROFILES, "intermediate")
     counter = []
+    if structure:
+        s_impl, s_model, s_dis = G.diff_impl_model(structure, ("release",), "matrix-structure")
+        for c, i, m in zip(structure, s_impl, s_model):
+            if C.canon(i) != C.canon(m):
+                what = "building the constraint matrix panics" if not i.startswith("1") else "constraint-matrix rows differ from the model (proved equal to the RFC matrix)"
+                counter.append({"input": " ".join(c.impl_line().split()[:2]) + " <rows>", "expected": "LDPC / G_ENC rows of RFC 6330 for K' = %d" % c.args[0], "observed": what + ": " + i[:80], "oracle": "Model.CMatrix rows (= A_rfc by C04_matrix_is_rfc)"})
     # (3) constraint check of the real intermediate symbols + equality across variants
     chk = []
     byk = {}
@@ -150,7 +170,7 @@ def evaluate(cs, rep, tier):
     # (2) extracted validation beyond the bound
     validated = []
     if tier != "quick":
-        big = [k for k in (5008, 10002, 20020, 56403) if k in kprimes()]
+        big = [k for k in (5008, 10002) if k in kprimes()]  # measured: 35 s and 176 s; K' = 56403 did not finish in 2 h
         bd = C.run_impl([C.Case("plan_ops", [k]) for k in big], "release")
         vc = [C.Case("spec_cert_ok", [k] + [int(x) for x in r0.split()[1:]]) for k, r0 in zip(big, bd) if r0.startswith("1")]
         vr = C.run_model(vc, timeout=7200)
@@ -173,7 +193,31 @@ def kernel_ok(c):
     return len(c.args) < 40
 
 
+def search_table_edit(rng):
+    """a Table-2 row that differs from the RFC snapshot: check the real intermediate symbols of that block size
+    against the RFC constraint system built from the SNAPSHOT parameters"""
+    from props import C04
+    out = []
+    try:
+        ks = [k for k in C04.changed_table_rows() if k <= 1300][:3]
+    except (ValueError, OSError):
+        ks = []
+    for k in ks:
+        c = C.Case("intermediate", [1, 1, 0] + CG.rand_data(rng, k))
+        i = C.run_impl([c], "release")[0]
+        if not i.startswith("1"):
+            out.append({"input": c.impl_line()[:300], "expected": "building an encoder succeeds", "observed": i[:60], "oracle": "C06"})
+            continue
+        ans = C.run_model([C.Case("spec_check_intermediate_rfc", [k, 1] + c.args[3:] + [int(x) for x in i.split()[1:]])], timeout=3600)[0]
+        if ans != "1 1":
+            out.append({"input": c.impl_line()[:300] + " ...", "expected": "L(K') intermediate symbols satisfying the RFC's S LDPC and H HDPC relations and reproducing source/padding symbols (parameters of RFC Table 2)", "observed": "the real intermediate symbols do not (count or relations differ)", "oracle": "A_rfc from the RFC snapshot"})
+    return out
+
+
 def search(rng, rep, tier, disagreements):
+    t = search_table_edit(rng)
+    if t:
+        return t
     # a failed certificate: look for data on which the real intermediate symbols violate the constraint system
     ks = sorted(set(int(m.group(1)) for d in disagreements for m in [re.search(r"K'=(\d+)", d.get("input", ""))] if m))[:6]
     cs = []
